@@ -1,0 +1,51 @@
+//go:build verif
+
+// Contracts read by /verif/govc (comment-only; never compiled into the node).
+
+package safrole
+
+//@ pred ideq(a, b) = forall(k, 0, 32, a[k] == b[k])
+
+// GP (6.32)/(6.33): an extrinsic (already checked to be sorted) with two equal neighbouring identifiers is rejected,
+// one without is accepted by this check
+//@ func VerifyTicketsDuplicate
+//@   props C23
+//@   ensures reject: exists(i, 1, len(tickets), ideq(tickets[i-1].ID, tickets[i].ID)) ==> result != nil
+//@   ensures accept: forall(i, 1, len(tickets), !ideq(tickets[i-1].ID, tickets[i].ID)) ==> result == nil
+//@   loop i#0
+//@     invariant range: i >= 1
+//@     invariant seen: forall(j, 1, i, j < len(tickets) ==> !ideq(tickets[j-1].ID, tickets[j].ID))
+//@     invariant frame: frame_only()
+
+// every attempt index must be below N (tickets per validator)
+//@ func VerifyTicketsAttempt
+//@   props C23
+//@   requires cfg: types.TicketsPerValidator >= 1 && types.TicketsPerValidator <= 16
+//@   ensures reject: exists(i, 0, len(tickets), uint64(tickets[i].Attempt) >= uint64(types.TicketsPerValidator)) ==> result != nil
+//@   ensures accept: forall(i, 0, len(tickets), uint64(tickets[i].Attempt) < uint64(types.TicketsPerValidator)) ==> result == nil
+//@   loop rangeindex#0
+//@     invariant range: rangeindex >= -1 && rangeindex < len(tickets)
+//@     invariant seen: forall(j, 0, rangeindex+1, uint64(tickets[j].Attempt) < uint64(types.TicketsPerValidator))
+//@     invariant frame: frame_only()
+
+//@ func Contains
+//@   props C23
+//@   ensures member: result == exists(i, 0, len(tickets), ideq(tickets[i].ID, ticketID))
+//@   loop rangeindex#0
+//@     invariant range: rangeindex >= -1 && rangeindex < len(tickets)
+//@     invariant seen: forall(j, 0, rangeindex+1, !ideq(tickets[j].ID, ticketID))
+//@     invariant frame: frame_only()
+
+// GP (6.25) Z: outside-in ordering of a full accumulator: s_0, s_{E-1}, s_1, s_{E-2}, ...
+//@ func OutsideInSequencer
+//@   props C23
+//@   ghost k int
+//@   requires full: t != nil && types.EpochLength >= 1 && types.EpochLength <= 600 && len(*t) == types.EpochLength
+//@   ensures len: len(result) == types.EpochLength && fresh(result)
+//@   ensures even: 0 <= k && k < types.EpochLength && 2*k < types.EpochLength ==> result[2*k] == (*t)[k]
+//@   ensures odd: 0 <= k && k < types.EpochLength && 2*k+1 < types.EpochLength ==> result[2*k+1] == (*t)[types.EpochLength-1-k]
+//@   loop i#0
+//@     invariant range: i >= 0 && i <= types.EpochLength && left == (i+1)/2 && right == types.EpochLength - 1 - i/2 && len(out) == types.EpochLength && fresh(out) && len(*t) == types.EpochLength
+//@     invariant even: 0 <= k && k < types.EpochLength && 2*k < i ==> out[2*k] == (*t)[k]
+//@     invariant odd: 0 <= k && k < types.EpochLength && 2*k+1 < i ==> out[2*k+1] == (*t)[types.EpochLength-1-k]
+//@     invariant frame: frame_only()
